@@ -129,9 +129,9 @@ def main():
         "setup_cmd": "./setup.sh",
         "hooks": {
             "guard": "MOKAPOT_VERIF",
-            "enable": "no hook in /repo is needed: every seam (module-level Parallel names, chunk-size module globals, Path.glob, pandas/pyarrow/os mutation calls, the estimator API, PYTHONHASHSEED) is owned from outside by /verif/vsim; the guard name is recorded only because the schema asks for one",
+            "enable": "one hook: with MOKAPOT_VERIF=1 in the environment (./check exports it; nothing is built) mokapot.constants defines TRAIN_SETS_BLOCK_SIZE and brew.make_train_sets uses it instead of its literal 5,000,000-row block, so that the simulator can make small files span several blocks (the knob layer vsim/knobs.py then sets it per scenario like the six shipped chunk sizes). Guard off: the name is None and the literal applies. Every other seam (module-level Parallel names, chunk-size module globals, the names mokapot.mokapot.main calls, Path.glob, pandas/pyarrow/os mutation calls, numpy's default_rng/empty, the estimator API, PYTHONHASHSEED) is owned from outside by /verif/vsim",
             "baseline_off_cmd": "cd /repo && /venv/bin/python -m pytest -ra -q -p no:cacheprovider --timeout=900 --continue-on-collection-errors",
-            "source_commits": [],
+            "source_commits": ["a56b8c7192cdfcb79f43f54ca3fe822f07c2a549"],
             "add_only": True,
         },
         "engines": [{
@@ -142,7 +142,7 @@ def main():
         }],
         "checks": checks,
         "not_applicable": na,
-        "notes": "19 fix: commits in /repo are recorded in known_findings.json ('fixed' entries; no open finding). 110 changes seeded by independent sub-agents are kept under seeded/ with what catches them; self-tests: ./check selftest-determinism | selftest-fidelity | selftest-mutants. See DESIGN.md section 0.",
+        "notes": "21 fix: commits in /repo are recorded in known_findings.json ('fixed' entries; no open finding). 121 changes seeded by independent sub-agents are kept under seeded/ with what catches them; self-tests: ./check selftest-determinism | selftest-fidelity | selftest-mutants. See DESIGN.md section 0.",
     }
     with open(os.path.join(HERE, "MANIFEST.json"), "w") as fh:
         json.dump(manifest, fh, indent=1)
